@@ -531,8 +531,8 @@ def homodyne_rotation(ctx, rule="C06.basis-rotation"):
             ctx.ob(rule, f.site, ok, "" if ok else f"`{ast.unparse(c)[:60]}`: the phase applied to the "
                    f"{'eigenstate that is projected on' if eig else 'state before sampling'} carries {'-' if sign < 0 else '+'}{phi}; "
                    f"every backend uses {'+' if eig else '-'}{phi} here", role=f"rotation:{'eigenstate' if eig else 'state'}", line=c.lineno)
-    ctx.require(n >= 4, f"only {n} phase rotations by phi found in the measure_homodyne implementations")
-    ctx.floor(rule, 4)
+    ctx.require(n >= 2, f"only {n} phase rotations by phi found in the measure_homodyne implementations")
+    ctx.floor(rule, 2)
 
 
 def rules(ctx):
